@@ -61,6 +61,24 @@ TEXT["C20"] = ("PARTIAL in Lean. Theorems: the four list categories partition al
                "C++ template bodies cannot be a Lean theorem: the finite matrix the property quantifies over (418 required cells from "
                "the Lean table x AlignAs on/off x 3 allocator kinds = 2508) is compiled cell by cell (-fsyntax-only explicit "
                "instantiation); thorough is exhaustive, quick compiles every required cell once with a rotating variant.")
+TEXT["C07"] = ("Theorems on the ledger model of AllocatorAwarePointer (every vector and element reaches the allocator only through it): "
+               "allocation records size and allocator and establishes ownership; deallocation of an owned block raises no ledger error "
+               "(live, same size, equal allocator) and removes exactly that block; reallocation, copy and move assignment are clean for "
+               "all trait combinations; destruction returns the data block. The full no-leak statement is FALSE for the code (offset "
+               "table never freed): kept visible with a kernel-checked counter-witness, no_leak_partial proved instead; the check "
+               "reports it as KNOWN-FINDING. Correspondence: ledger stream (serials, sizes, allocator ids) per operation and final ledger.")
+TEXT["C08"] = ("Theorems: copy construction takes select_on_container_copy_construction; copy/move assignment and swap take the source's "
+               "allocator exactly when POCCA/POCMA/POCS; ownership (block allocated by an allocator equal to the held one) is preserved, for "
+               "swap under the standard's precondition; move assignment between unequal non-propagating allocators keeps the target's "
+               "allocator, leaves the source its block and transfers element-wise. Correspondence: get_allocator ids and block owners "
+               "after every operation under all ten trait combinations.")
+TEXT["C17"] = ("Theorems quantified over the fault position (Heap.fail = some k for every k): a throwing allocation leaves the ledger "
+               "untouched; allocate-then-free leaves the pointer owning its block; data-block + offset-table allocation returns the first "
+               "block when the second throws; construction, reserve and copy construction under a fault leave all vectors and the ledger "
+               "unchanged. Correspondence: operations executed with the 1st or 2nd allocation failing, operands then dumped, reused and "
+               "torn down under ledger and lifetime monitors. PARTIAL: copy/move assignment of vectors and elements under faults are "
+               "covered by the correspondence run only; ContiguousElement copy assignment is not exception safe for non-trivial types "
+               "(recorded, see DESIGN.md).")
 NOTE = ("Trusted: Lean 4.33 kernel; axioms propext/Classical.choice/Quot.sound only (audited on every run); the correspondence "
         "harness, generator and runner; g++ 12.2 + ASan/UBSan. Modelled, not verified: allocator, value types, std algorithms, "
         "no size_t overflow, user preconditions (DESIGN.md §8).")
